@@ -29,7 +29,7 @@ fn unimodular<R: Ent>(rng: &mut StdRng, n: usize, steps: usize, mag: i64) -> Mat
 pub trait BigEnt: Ent where for<'x> &'x Self: RingOps<Self> { fn big(_rng: &mut StdRng, _digits: usize) -> Option<Self> { None } }
 fn big_int(rng: &mut StdRng, digits: usize) -> BigInt { let s: String = (0..digits).map(|i| char::from(b'0' + if i == 0 { rng.gen_range(1..10) } else { rng.gen_range(0..10) })).collect(); let v: BigInt = s.parse().unwrap(); if rng.gen_bool(0.5) { -v } else { v } }
 impl BigEnt for i64 {} impl BigEnt for Ratio<i64> {} impl<const P: i32> BigEnt for FF<P> {} impl BigEnt for GaussInt<i64> {} impl BigEnt for EisenInt<i64> {}
-impl BigEnt for Poly<'x', FF<3>> {} impl BigEnt for Poly<'x', Ratio<i64>> {}
+impl BigEnt for Poly<'x', FF<3>> {} impl BigEnt for Poly<'x', Ratio<i64>> {} impl BigEnt for Poly<'x', FF<5>> {}
 impl BigEnt for BigInt { fn big(rng: &mut StdRng, d: usize) -> Option<Self> { Some(big_int(rng, d)) } }
 impl BigEnt for GaussInt<BigInt> { fn big(rng: &mut StdRng, d: usize) -> Option<Self> { Some(GaussInt::new(big_int(rng, d), big_int(rng, d / 2 + 1))) } }
 impl BigEnt for EisenInt<BigInt> { fn big(rng: &mut StdRng, d: usize) -> Option<Self> { Some(EisenInt::new(big_int(rng, d), big_int(rng, d / 2 + 1))) } }
@@ -129,6 +129,32 @@ pub fn record(a: &Args) {
     let picks = if a.thorough() { 3000 } else { 40 };
     diag_family::<GaussInt<i64>>(a, 21, &mut t, &mut st, &mut cid, &|x, y| GaussInt::new(x, y), 4, picks);
     diag_family::<EisenInt<i64>>(a, 22, &mut t, &mut st, &mut cid, &|x, y| EisenInt::new(x, y), 4, picks);
+    // small dense matrices over Z[i] and Z[w] with every entry drawn from the box -2..2 (both coordinates): pivots and the entries
+    // they meet are associates / proper divisors of each other up to non-real units, where the 2x2 elimination steps depend on the
+    // normalisation of the gcd they are handed; and monomial columns / rows over Q[x], F5[x] (c x^e: proper divisors with unit cofactors)
+    {
+        let mut rng = a.rng(24);
+        let picks = if a.thorough() { 2500 } else { 260 };
+        for k in 0..picks {
+            let (m, n) = [(3, 2), (2, 3), (3, 1), (1, 3), (2, 2), (3, 3)][k % 6];
+            cid += 1; st.cases += 1;
+            let mut c = || -> (i64, i64) { (rng.gen_range(-2..=2), rng.gen_range(-2..=2)) };
+            if k % 2 == 0 { let d: Vec<GaussInt<i64>> = (0..m * n).map(|_| { let (x, y) = c(); GaussInt::new(x, y) }).collect();
+                let mut r2 = a.rng(2400 + k as u64); run_matrix::<GaussInt<i64>>(&mut r2, &mut t, &mut st, cid, &Mat::from_data((m, n), d), true); }
+            else { let d: Vec<EisenInt<i64>> = (0..m * n).map(|_| { let (x, y) = c(); EisenInt::new(x, y) }).collect();
+                let mut r2 = a.rng(2400 + k as u64); run_matrix::<EisenInt<i64>>(&mut r2, &mut t, &mut st, cid, &Mat::from_data((m, n), d), true); }
+        }
+        let mpicks = if a.thorough() { 600 } else { 90 };
+        for k in 0..mpicks {
+            let (m, n) = [(3, 1), (1, 3), (2, 2), (3, 2)][k % 4];
+            cid += 1; st.cases += 1;
+            let mut mono = || -> (usize, i64) { (rng.gen_range(0..3usize), [1, 2, 4, -1, 3, 0, -2][rng.gen_range(0..7)]) };
+            if k % 2 == 0 { let d: Vec<Poly<'x', Ratio<i64>>> = (0..m * n).map(|_| { let (e, c) = mono(); Poly::from_iter([(yui::poly::Var::from(e), Ratio::from(c))]) }).collect();
+                let mut r2 = a.rng(2500 + k as u64); run_matrix::<Poly<'x', Ratio<i64>>>(&mut r2, &mut t, &mut st, cid, &Mat::from_data((m, n), d), true); }
+            else { let d: Vec<Poly<'x', FF<5>>> = (0..m * n).map(|_| { let (e, c) = mono(); Poly::from_iter([(yui::poly::Var::from(e), FF::<5>::new(c as i32))]) }).collect();
+                let mut r2 = a.rng(2500 + k as u64); run_matrix::<Poly<'x', FF<5>>>(&mut r2, &mut t, &mut st, cid, &Mat::from_data((m, n), d), false); }
+        }
+    }
     // diagonal (and permuted-diagonal) integer matrices with three or four small composite entries: the diagonal fix-up has to
     // merge several mutually non-dividing neighbours in one sweep; rectangular by a zero row / column half of the time
     {
